@@ -120,13 +120,18 @@ def dirmove_history(rng, hid, length):
     setup = [{"call": "mkdirs", "path": x} for x in ("d", "d/s", "e", "dd")] + \
             [{"call": "mkfile", "path": x, "bytes": [len(x)]} for x in ("a", "d/c", "d/s/f", "dd/c")] + [{"call": "mklink", "path": "l", "target": "a"}]
     names = ["d", "e", "d/s", "e/d", "e/s", "d/s/x", "d/s/d", "n", "a", "l", "e/n", "d/c", "m", "m/s", "e/d/s", "e/d/c", "n/s/f", "d/e", "dd", "dd/c", "d", "d"]
-    calls, dirfds, nextfd = [], {3: ""}, 4
+    opn = lambda nm: {"call": "open", "abi": rng.choice("pu"), "dirfd": 3, "path": nm, "abs": False, "oflags": 2, "rd": True, "wr": False, "app": False,
+                      "parent": os.path.dirname(nm)}
+    # descriptors of directories that exist from the start: 4 = dd, 5 = d or d/s or e
+    first = rng.choice(["d", "d/s", "e"])
+    calls, dirfds, nextfd = [opn("dd"), opn(first)], {3: "", 4: "dd", 5: first}, 6
+    probe = {"dd": "c", "d": "c", "d/s": "f", "e": "d", "n": "c", "m": "s"}
     for _ in range(length):
         abi = rng.choice("pu")
         r = rng.random()
-        if r < 0.2 and len(dirfds) < 4:
-            nm = rng.choice(["d", "e", "d/s", "n", "m", "dd", "dd"])
-            calls.append({"call": "open", "abi": abi, "dirfd": 3, "path": nm, "abs": False, "oflags": 2, "rd": True, "wr": False, "app": False, "parent": os.path.dirname(nm)})
+        if r < 0.12 and len(dirfds) < 5:
+            nm = rng.choice(["d", "e", "d/s", "n", "m"])
+            calls.append(opn(nm))
             dirfds[nextfd] = nm          # (a guess: if the open fails the descriptor number stays unused and calls through it are EBADF)
             nextfd += 1
             continue
@@ -142,6 +147,12 @@ def dirmove_history(rng, hid, length):
             c.update({"abs": False, "oflags": rng.choice([0, 1]), "rd": True, "wr": rng.random() < 0.5, "app": False})
             nextfd += 1
         calls.append(c)
+        if k in ("rename", "rmdir"):
+            # what every directory descriptor names now: an entry looked up through it, and the directory itself (".")
+            for fd_, nm in sorted(dirfds.items()):
+                if fd_ != 3:
+                    calls.append({"call": "pathstat", "abi": abi, "dirfd": fd_, "path": probe[nm], "rawpath": probe[nm], "parent": "", "under": []})
+                    calls.append({"call": "pathstat", "abi": abi, "dirfd": fd_, "path": "", "rawpath": rng.choice([".", "./"]), "dot": True, "parent": "", "under": []})
     return {"id": "m%d" % hid, "setup": setup, "calls": calls}
 
 
